@@ -98,6 +98,24 @@ Proof.
   cbn [negb andb] in H. inv_all. rewrite <- E. rewrite set_ty_same. auto.
 Qed.
 
+(* the versions the callers outside constrain_type use (fix 64720dd): on a concrete type the deep branch
+   cannot fire (it requires a type different from the expected one, which is then Unspecified) *)
+Lemma coc_unsigned_deep_conc f e u e' :
+  coc_unsigned_deep f e u = COk e' -> conc_ty (ty_of e) = true -> e' = e /\ ty_of e = CUnsigned u.
+Proof.
+  unfold coc_unsigned_deep. intros H Hc. rewrite (conc_not_uU _ Hc) in H.
+  destruct (cty_eqb (ty_of e) (CUnsigned u)) eqn:E; [|discriminate]. cbn [negb andb] in H.
+  apply coc_unsigned_conc; assumption.
+Qed.
+
+Lemma coc_signed_deep_conc f e s e' :
+  coc_signed_deep f e s = COk e' -> conc_ty (ty_of e) = true -> e' = e /\ ty_of e = CSigned s.
+Proof.
+  unfold coc_signed_deep. intros H Hc. rewrite (conc_not_uU _ Hc), (conc_not_sU _ Hc) in H.
+  destruct (cty_eqb (ty_of e) (CSigned s)) eqn:E; [|discriminate]. cbn [negb andb] in H.
+  apply coc_signed_conc; assumption.
+Qed.
+
 Lemma mapM_id {A} (g : A -> cres A) : forall l l',
   mapM g l = COk l' -> (forall x x', In x l -> g x = COk x' -> x' = x) -> l' = l.
 Proof.
@@ -175,8 +193,8 @@ Proof.
 Qed.
 
 (* unify on concrete trees: the identity, and the two types are EQUAL *)
-Lemma unify_conc a b a' b' t :
-  unify a b = COk (a', b', t) -> conc_ty (ty_of a) = true -> conc_ty (ty_of b) = true ->
+Lemma unify_conc f a b a' b' t :
+  unify f a b = COk (a', b', t) -> conc_ty (ty_of a) = true -> conc_ty (ty_of b) = true ->
   a' = a /\ b' = b /\ ty_of a = t /\ ty_of b = t.
 Proof.
   unfold unify. intros H Ha Hb.
@@ -357,9 +375,9 @@ Proof.
   cbn [snd]. eapply R_transr; [eapply Hg; eauto|eapply IH; eauto].
 Qed.
 
-Lemma accs_loop_Rr ce :
+Lemma accs_loop_Rr ce fu :
   (forall st x r, ce st x = COk r -> Rb st (snd r)) ->
-  forall accs st t r, accs_loop ce D st t accs = COk r -> Rb st (snd r).
+  forall accs st t r, accs_loop ce fu D st t accs = COk r -> Rb st (snd r).
 Proof.
   intros Hce. induction accs as [|a accs IH]; intros st t r H; cbn [accs_loop] in H; [inv_all; apply R_reflr|].
   apply cbind_ok in H. destruct H as [[[ta t'] st'] [H1 H2]]. cbv beta iota in H2.
@@ -391,7 +409,7 @@ Ltac use_Rr IHe IHss IHb IHs IHf := repeat match goal with
   | H : Infer.check_fn _ _ _ _ _ = COk _ |- _ => apply IHf in H
   | H : mapM_st (Infer.check_expr _ _ _) _ _ = COk _ |- _ => apply (mapM_st_Rr _ IHe) in H
   | H : mapM_st (Infer.check_stmt _ _ _) _ _ = COk _ |- _ => apply (mapM_st_Rr _ IHs) in H
-  | H : accs_loop _ _ _ _ _ = COk _ |- _ => apply (accs_loop_Rr _ IHe) in H
+  | H : accs_loop _ _ _ _ _ _ = COk _ |- _ => apply (accs_loop_Rr _ _ IHe) in H
   | H : struct_lit_loop _ _ _ _ _ _ = COk _ |- _ => apply (struct_lit_loop_Rr _ _ _ IHe) in H
   end.
 
@@ -1208,7 +1226,7 @@ Proof. unfold lenN. rewrite map_length. reflexivity. Qed.
 (* the accessor loop of an assignment *)
 Lemma accs_ok f F : E f -> (f <= F)%nat -> forall accs st t tas t' st' G,
   forallb frag_a accs = true ->
-  accs_loop (check_expr intern f D) D st t accs = COk (tas, t', st') ->
+  accs_loop (check_expr intern f D) f D st t accs = COk (tas, t', st') ->
   good st -> env_rel (st_env st) G -> conc_ty t = true ->
   ago F G (map xa tas) (xt t) = Some (xt t') /\ conc_ty t' = true /\ st_env st' = st_env st /\ good st'.
 Proof.
@@ -1223,7 +1241,7 @@ Proof.
       apply cbind_ok in H1. destruct H1 as [[i1 sti] [Hi H1]]. cbn [fst snd] in H1.
       apply cbind_ok in H1. destruct H1 as [i2 [Hcoc H1]]. inversion H1; subst ta t1 st1; clear H1.
       destruct (HE _ _ _ _ _ F Hf1 Hi Hok Hrel HF) as [Hci Hwi].
-      destruct (coc_unsigned_conc _ _ _ Hcoc (conc_e_ty _ Hci)) as [-> Ety].
+      destruct (coc_unsigned_deep_conc _ _ _ _ Hcoc (conc_e_ty _ Hci)) as [-> Ety].
       pose proof (proj1 (check_env intern f D) _ _ _ Hi) as Henv. cbn [snd] in Henv.
       pose proof (good_e _ _ _ _ Hi Hok) as Hok2. cbn [snd] in Hok2. rewrite <- Henv in Hrel.
       cbn [conc_ty] in Hct.
@@ -1333,12 +1351,12 @@ Proof.
     repeat split; try reflexivity; [apply Hg2|apply Hg2|congruence].
 Qed.
 
-Lemma match_retype ret_ty : forall rc rc',
+Lemma match_retype fu ret_ty : forall rc rc',
   mapM (fun pc : tpattern * texpr =>
           if negb (cty_eqb ret_ty (ty_of (snd pc))) then
             match ret_ty with
-            | CUnsigned expected => do x <- check_or_constrain_unsigned (snd pc) expected; COk (fst pc, x)
-            | CSigned expected => do x <- check_or_constrain_signed (snd pc) expected; COk (fst pc, x)
+            | CUnsigned expected => do x <- coc_unsigned_deep fu (snd pc) expected; COk (fst pc, x)
+            | CSigned expected => do x <- coc_signed_deep fu (snd pc) expected; COk (fst pc, x)
             | _ => CErr E_UnexpectedType
             end
           else COk pc) rc = COk rc' ->
@@ -1355,9 +1373,9 @@ Proof.
       - cbn [negb] in Hx. inversion Hx. apply cty_eqb_eq in Eq. auto.
       - cbn [negb] in Hx. destruct ret_ty; try discriminate Hx.
         + apply cbind_ok in Hx. destruct Hx as [y [Hy Hx]]. inversion Hx; subst.
-          destruct (coc_unsigned_conc _ _ _ Hy (conc_e_ty _ Hc1)) as [-> Ht]. auto.
+          destruct (coc_unsigned_deep_conc _ _ _ _ Hy (conc_e_ty _ Hc1)) as [-> Ht]. auto.
         + apply cbind_ok in Hx. destruct Hx as [y [Hy Hx]]. inversion Hx; subst.
-          destruct (coc_signed_conc _ _ _ Hy (conc_e_ty _ Hc1)) as [-> Ht]. auto. }
+          destruct (coc_signed_deep_conc _ _ _ _ Hy (conc_e_ty _ Hc1)) as [-> Ht]. auto. }
     destruct Hxe as [-> Hte]. split; [reflexivity|]. intros a [<-|Ha]; [exact Hte|auto].
 Qed.
 
@@ -1554,7 +1572,7 @@ Proof.
       apply cbind_ok in H. destruct H as [el [Hel H]]. apply cbind_ok in H. destruct H as [i2 [Hcoc H]].
       inversion H; subst; clear H.
       sub_e HE G F HF Ha. sub_e HE G F HF Hi.
-      destruct (coc_unsigned_conc _ _ _ Hcoc (conc_e_ty _ Hc0)) as [-> Ety].
+      destruct (coc_unsigned_deep_conc _ _ _ _ Hcoc (conc_e_ty _ Hc0)) as [-> Ety].
       pose proof (conc_e_ty _ Hc) as Hca.
       destruct (ty_of a1) as [| | |el0 n0| | |] eqn:Eta; try discriminate Hel. cbn in Hel. inversion Hel; subst; clear Hel.
       cbn [conc_ty] in Hca.
@@ -1627,7 +1645,7 @@ Proof.
             rewrite (pick_conc _ _ Hcf) in H;
             apply cbind_ok in H; destruct H as [clauses' [Hm H]]; apply cbind_ok in H; destruct H as [u0 [_ H]];
             inversion H; subst; clear H;
-            destruct (match_retype _ _ _ Hm Hca) as [-> Hall];
+            destruct (match_retype _ _ _ _ Hm Hca) as [-> Hall];
             cbn [conc_e export_expr Wt.wt_expr]; rewrite Hc, Hw, Hcf, Hca, e_ty_xe, Ets;
             rewrite (arms_wt F G _ _ _ Hwa Hall); split; reflexivity).
     + (* unary *)
@@ -1646,10 +1664,10 @@ Proof.
       pose proof (conc_e_ty _ Hc) as Htx. pose proof (conc_e_ty _ Hc0) as Hty.
       destruct o.
       1-12: (apply cbind_ok in H; destruct H as [[[x2 y2] ty] [Hu H]]; cbv beta iota in H;
-             destruct (unify_conc _ _ _ _ _ Hu Htx Hty) as [-> [-> [Et1 Et2]]]; subst ty).
+             destruct (unify_conc _ _ _ _ _ _ Hu Htx Hty) as [-> [-> [Et1 Et2]]]; subst ty).
       1-10: (apply cbind_ok in H; destruct H as [u0 [Hex H]]).
       13-14: (apply cbind_ok in H; destruct H as [u0 [Hex H]]; apply cbind_ok in H; destruct H as [y2 [Hcoc H]];
-              destruct (coc_unsigned_conc _ _ _ Hcoc Hty) as [-> Ey]).
+              destruct (coc_unsigned_deep_conc _ _ _ _ Hcoc Hty) as [-> Ey]).
       15-16: (destruct (ty_of x1) eqn:Ex1; try discriminate H; destruct (ty_of y1) eqn:Ey1; try discriminate H).
       all: inversion H; subst; clear H.
       all: cbn [conc_e export_expr export_op Wt.wt_expr export_ty ty_of conc_ty];
@@ -1707,7 +1725,7 @@ Proof.
       apply cbind_ok in H. destruct H as [[[a2 b2] ty] [Hu H]]. cbv beta iota in H. inversion H; subst; clear H.
       sub_e HE G F HF Hc1. sub_e HE G F HF Ha. sub_e HE G F HF Hb.
       destruct (check_type_conc _ _ _ _ Hct Hc) as [-> Etc].
-      destruct (unify_conc _ _ _ _ _ Hu (conc_e_ty _ Hc0) (conc_e_ty _ Hc2)) as [-> [-> [Et1 Et2]]]. subst ty.
+      destruct (unify_conc _ _ _ _ _ _ Hu (conc_e_ty _ Hc0) (conc_e_ty _ Hc2)) as [-> [-> [Et1 Et2]]]. subst ty.
       cbn [conc_e export_expr Wt.wt_expr export_ty ty_of].
       rewrite !e_ty_xe, Etc, Et2, xt_refl, Hc, Hc0, Hc2, Hw, Hw0, Hw1, (conc_e_ty _ Hc0). split; reflexivity.
     + (* cast *)
